@@ -49,6 +49,7 @@ func main() {
 type rec struct {
 	Shared uint64   `json:"shared"`
 	Own    []uint64 `json:"own"`
+	Tag    string   `json:"tag,omitempty"` // unique per write (harness device to recover the write order; not part of the model's record)
 	Whole  bool     `json:"whole"`
 	Why    string   `json:"why,omitempty"`
 }
@@ -90,6 +91,7 @@ func decodeRec(s *workceptor.StatusFileData, nw int) rec {
 		fail("ExtraData is %T", s.ExtraData)
 		ed = map[string]interface{}{}
 	}
+	r.Tag, _ = ed["tag"].(string)
 	var okn bool
 	if r.Shared, okn = toU(ed["shared"]); !okn {
 		fail("shared counter is %v", ed["shared"])
@@ -117,7 +119,7 @@ func decodeRec(s *workceptor.StatusFileData, nw int) rec {
 }
 
 func zeroStatus(nw int) *workceptor.StatusFileData {
-	ed := map[string]interface{}{"shared": 0}
+	ed := map[string]interface{}{"shared": 0, "tag": "init"}
 	for w := 0; w < nw; w++ {
 		ed[fmt.Sprintf("w%d", w)] = 0
 	}
@@ -128,7 +130,7 @@ func zeroStatus(nw int) *workceptor.StatusFileData {
 
 type gSpec struct {
 	W       int    `json:"w"`       // global writer / model process index
-	Ops     string `json:"ops"`     // 'U' = UpdateFullStatus(increment), 'L' = Load
+	Ops     string `json:"ops"`     // 'U' = UpdateFullStatus(increment), 'L' = Load, 'S' = Save of the in-memory record
 	Persist bool   `json:"persist"` // keep one StatusFileData for the whole program (like the runner)
 }
 
@@ -143,7 +145,9 @@ type hSpec struct {
 
 type opRes struct {
 	Kind string `json:"k"`
-	Seen *rec   `json:"seen,omitempty"` // U: the record the callback was given; L: the record loaded
+	Seen *rec   `json:"seen,omitempty"` // U: the record the callback was given; L: the record loaded; S: the record saved
+	Tag  string `json:"tag,omitempty"`  // U, S: the tag written
+	Ts   int64  `json:"ts,omitempty"`   // U: clock inside the callback, i.e. inside the critical section
 	Err  string `json:"err,omitempty"`
 	T0   int64  `json:"t0"`
 	T1   int64  `json:"t1"`
@@ -184,15 +188,33 @@ func helperOps(args []string) {
 			<-start
 			key := fmt.Sprintf("w%d", g.W)
 			persist := &workceptor.StatusFileData{}
+			opn := 0
 			for _, c := range g.Ops {
 				sfd := persist
 				if !g.Persist {
 					sfd = &workceptor.StatusFileData{}
 				}
+				opn++
 				res := opRes{Kind: string(c), T0: time.Now().UnixNano()}
 				switch c {
+				case 'S':
+					// Save writes the receiver as it is; the helper only stamps a fresh tag (and, for a
+					// receiver that never held a record, the fields of the zero counters)
+					ed := edMap(sfd)
+					sh, _ := toU(ed["shared"])
+					res.Tag = fmt.Sprintf("s%d.%d.%d", g.W, os.Getpid(), opn)
+					ed["tag"] = res.Tag
+					sfd.ExtraData, sfd.State, sfd.WorkType = ed, 1, "c14"
+					sfd.StdoutSize, sfd.Detail = int64(sh), pad(sh)
+					r := decodeRec(sfd, sp.NW)
+					res.Seen = &r
+					if err := sfd.Save(sp.File); err != nil {
+						res.Err = err.Error()
+					}
 				case 'U':
+					res.Tag = fmt.Sprintf("u%d.%d.%d", g.W, os.Getpid(), opn)
 					err := sfd.UpdateFullStatus(sp.File, func(s *workceptor.StatusFileData) {
+						res.Ts = time.Now().UnixNano()
 						if s.WorkType != "" {
 							r := decodeRec(s, sp.NW)
 							res.Seen = &r
@@ -203,7 +225,7 @@ func helperOps(args []string) {
 						ed := edMap(s)
 						sh, _ := toU(ed["shared"])
 						own, _ := toU(ed[key])
-						ed["shared"], ed[key] = sh+1, own+1
+						ed["shared"], ed[key], ed["tag"] = sh+1, own+1, res.Tag
 						s.ExtraData, s.State, s.WorkType = ed, 1, "c14"
 						s.StdoutSize, s.Detail = int64(sh+1), pad(sh+1)
 					})
@@ -266,8 +288,8 @@ type round struct {
 	Reports []hReport
 }
 
-func genRound(r *Rng, dir string, procs, gor, nops, loadPct int, lockThread, marker bool) *round {
-	rd := &round{Dir: dir, File: filepath.Join(dir, "status"), NW: procs * gor, Precre: r.Chance(60)}
+func genRound(r *Rng, dir string, procs, gor, nops, loadPct, savePct int, lockThread, marker bool) *round {
+	rd := &round{Dir: dir, File: filepath.Join(dir, "status"), NW: procs * gor, Precre: r.Chance(60) || savePct > 0}
 	w := 0
 	for p := 0; p < procs; p++ {
 		sp := hSpec{File: rd.File, NW: rd.NW, LockThread: lockThread, Marker: marker}
@@ -278,14 +300,18 @@ func genRound(r *Rng, dir string, procs, gor, nops, loadPct int, lockThread, mar
 				pct = 90 // a mostly-reading goroutine (the daemon's monitor)
 			}
 			var sb strings.Builder
+			saver := savePct > 0 && r.Chance(60)
 			for i := 0; i < n; i++ {
-				if r.Chance(pct) {
+				switch {
+				case saver && i > 0 && r.Chance(savePct):
+					sb.WriteByte('S') // like BaseWorkUnit.Save: rewrite what this goroutine last read or wrote
+				case r.Chance(pct):
 					sb.WriteByte('L')
-				} else {
+				default:
 					sb.WriteByte('U')
 				}
 			}
-			sp.Gs = append(sp.Gs, gSpec{W: w, Ops: sb.String(), Persist: r.Bool()})
+			sp.Gs = append(sp.Gs, gSpec{W: w, Ops: sb.String(), Persist: r.Bool() || saver})
 			w++
 		}
 		rd.Specs = append(rd.Specs, sp)
@@ -382,7 +408,7 @@ func runStress(c *Ctx, im *Impl, cf *CaseFile, rd *round, idx int) {
 		wg.Add(1)
 		go func(i int, f string) {
 			defer wg.Done()
-			ctx, cancel := context.WithTimeout(context.Background(), 120*time.Second)
+			ctx, cancel := context.WithTimeout(context.Background(), 300*time.Second)
 			defer cancel()
 			out, err := exec.CommandContext(ctx, os.Args[0], "ops", f).Output()
 			if err != nil {
@@ -404,135 +430,253 @@ func runStress(c *Ctx, im *Impl, cf *CaseFile, rd *round, idx int) {
 		im.Violate("helper report unreadable: "+err.Error(), "c14-helper-died", replay)
 		return
 	}
-	type upd struct {
-		w, proc int
-		pre     uint64
+	// ---- the writes, by tag ----
+	type write struct {
+		tag, pre string // pre: tag of the record an update started from ("" for a Save)
+		w, proc  int
+		save     bool
+		post     rec // the record written
+		ts       int64
+		next     *write // the update that started from this write
 	}
-	var upds []upd
-	var loads []*rec
+	sameCounters := func(a, b *rec) bool {
+		if a.Shared != b.Shared || len(a.Own) != len(b.Own) {
+			return false
+		}
+		for i := range a.Own {
+			if a.Own[i] != b.Own[i] {
+				return false
+			}
+		}
+		return true
+	}
+	zero := rec{Own: make([]uint64, rd.NW), Tag: "init", Whole: true}
+	if !rd.Precre {
+		zero.Tag = ""
+	}
+	writes := map[string]*write{}
+	var updates []*write
+	type seenAt struct {
+		r   *rec
+		who string
+	}
+	var loads []seenAt
 	nUpdBy := make([]uint64, rd.NW)
+	nSaves := 0
 	firstDone := int64(1<<62 - 1)
-	for pi, rep := range rd.Reports {
-		for gi, rs := range rep.Res {
-			w := rd.Specs[pi].Gs[gi].W
+	for _, rep := range rd.Reports {
+		for _, rs := range rep.Res {
 			for _, o := range rs {
-				if o.Kind == "U" && o.Err == "" && o.T1 < firstDone {
+				if (o.Kind == "U" || o.Kind == "S") && o.Err == "" && o.T1 < firstDone {
 					firstDone = o.T1
 				}
 			}
-			for _, o := range rs {
+		}
+	}
+	bad := false
+	violate := func(what, sig string) {
+		bad = true
+		im.Violate(what, sig, replay)
+	}
+	for pi, rep := range rd.Reports {
+		for gi, rs := range rep.Res {
+			w := rd.Specs[pi].Gs[gi].W
+			mem := zero // what this goroutine's StatusFileData holds (persistent receivers only)
+			persist := rd.Specs[pi].Gs[gi].Persist
+			for oi, o := range rs {
+				who := fmt.Sprintf("operation %d (%s) of writer %d", oi, o.Kind, w)
 				switch o.Kind {
 				case "U":
 					if o.Err != "" {
-						im.Violate("UpdateFullStatus failed under concurrency: "+o.Err, "c14-update-error", replay)
+						violate("UpdateFullStatus failed under concurrency ("+who+"): "+o.Err, "c14-update-error")
 						continue
 					}
-					pre := uint64(0)
+					pre := zero
 					if o.Seen != nil {
-						pre = o.Seen.Shared
+						pre = *o.Seen
 						if !o.Seen.Whole {
-							im.Violate("an update was handed a torn record: "+o.Seen.Why, "c14-torn-read", replay)
+							violate("an update was handed a torn record ("+who+"): "+o.Seen.Why, "c14-torn-read")
 						}
+					} else if rd.Precre {
+						violate("an update found the status file empty although a record had been stored ("+who+")", "c14-torn-read")
 					}
-					upds = append(upds, upd{w, pi, pre})
+					post := rec{Shared: pre.Shared + 1, Own: append([]uint64{}, pre.Own...), Tag: o.Tag, Whole: true}
+					post.Own[w]++
+					wr := &write{tag: o.Tag, pre: pre.Tag, w: w, proc: pi, post: post, ts: o.Ts}
+					writes[o.Tag] = wr
+					updates = append(updates, wr)
 					nUpdBy[w]++
-				case "L":
-					_ = gi
-				}
-			}
-		}
-	}
-	for pi, rep := range rd.Reports {
-		for _, rs := range rep.Res {
-			for _, o := range rs {
-				if o.Kind != "L" {
-					continue
-				}
-				if o.Err != "" {
-					if o.Err == "ENOENT" && !rd.Precre && o.T0 < firstDone {
-						im.Hist("stress:load-before-file-exists")
+					if o.Seen != nil {
+						loads = append(loads, seenAt{&pre, who})
+					}
+					mem = post
+				case "S":
+					nSaves++
+					if o.Err != "" {
+						violate("Save failed under concurrency ("+who+"): "+o.Err, "c14-update-error")
 						continue
 					}
-					im.Violate(fmt.Sprintf("a concurrent Load failed (process %d): %s", pi, o.Err), "c14-load-error", replay)
-					continue
+					// a Save writes the saver's in-memory record: what it last read or wrote
+					if persist && !sameCounters(o.Seen, &mem) {
+						violate(fmt.Sprintf("%s saved shared=%d own=%v but its in-memory record was shared=%d own=%v", who, o.Seen.Shared, o.Seen.Own, mem.Shared, mem.Own), "c14-save-not-in-memory-record")
+					}
+					post := *o.Seen
+					writes[o.Tag] = &write{tag: o.Tag, w: w, proc: pi, save: true, post: post}
+					mem = post
+				case "L":
+					if o.Err != "" {
+						if o.Err == "ENOENT" && !rd.Precre && o.T0 < firstDone {
+							im.Hist("stress:load-before-file-exists")
+							continue
+						}
+						violate(fmt.Sprintf("a concurrent Load failed (%s, process %d): %s", who, pi, o.Err), "c14-load-error")
+						continue
+					}
+					if !o.Seen.Whole {
+						violate("a concurrent Load returned a torn record ("+who+"): "+o.Seen.Why, "c14-torn-read")
+					}
+					loads = append(loads, seenAt{o.Seen, who})
+					mem = *o.Seen
 				}
-				if !o.Seen.Whole {
-					im.Violate("a concurrent Load returned a torn record: "+o.Seen.Why, "c14-torn-read", replay)
-				}
-				loads = append(loads, o.Seen)
 			}
 		}
 	}
-	sort.SliceStable(upds, func(i, j int) bool { return upds[i].pre < upds[j].pre })
-	T := uint64(len(upds))
-	lost := false
-	for i, u := range upds {
-		if u.pre != uint64(i) {
-			lost = true
-			im.Violate(fmt.Sprintf("lost update: %d updates applied but the %d-th smallest value of the shared counter seen by an update is %d (two updates started from the same record)", T, i, u.pre),
-				"c14-lost-update", replay)
-			break
+	// ---- every record anybody was given is exactly a record somebody wrote ----
+	lookup := func(tag string) *rec {
+		if tag == zero.Tag {
+			return &zero
+		}
+		if w := writes[tag]; w != nil {
+			return &w.post
+		}
+		return nil
+	}
+	for _, l := range loads {
+		if !l.r.Whole {
+			continue
+		}
+		if wr := lookup(l.r.Tag); wr == nil || !sameCounters(wr, l.r) {
+			violate(fmt.Sprintf("%s was given the record shared=%d own=%v tag=%q, which nobody wrote", l.who, l.r.Shared, l.r.Own, l.r.Tag), "c14-load-not-a-prefix")
+		}
+	}
+	// ---- no two updates started from the same record (a Save re-writes under a fresh tag) ----
+	heads := map[string]*write{}
+	for _, u := range updates {
+		if prev, dup := heads[u.pre]; dup {
+			violate(fmt.Sprintf("lost update: writers %d and %d both started from the record tagged %q (shared=%d): one of the two increments is gone", prev.w, u.w, u.pre, u.post.Shared-1), "c14-lost-update")
+			continue
+		}
+		heads[u.pre] = u
+		if p := writes[u.pre]; p != nil {
+			p.next = u
 		}
 	}
 	fin, err := rd.finalRec()
 	if err != nil {
-		if T > 0 || rd.Precre {
+		if len(writes) > 0 || rd.Precre {
 			im.Violate("final record unreadable: "+err.Error(), "c14-final-unreadable", replay)
 		}
 		return
 	}
 	if !fin.Whole {
-		im.Violate("final record is torn: "+fin.Why, "c14-torn-read", replay)
+		violate("final record is torn: "+fin.Why, "c14-torn-read")
 	}
-	if fin.Shared != T && !lost {
-		im.Violate(fmt.Sprintf("final shared counter %d after %d updates", fin.Shared, T), "c14-lost-update", replay)
+	if wr := lookup(fin.Tag); wr == nil || !sameCounters(wr, fin) {
+		violate(fmt.Sprintf("the final record shared=%d own=%v tag=%q is not a record anybody wrote", fin.Shared, fin.Own, fin.Tag), "c14-load-not-a-prefix")
+	} else if heads[fin.Tag] != nil {
+		violate(fmt.Sprintf("the final record (tag %q) is the one writer %d's update started from: that update's write is gone", fin.Tag, heads[fin.Tag].w), "c14-lost-update")
 	}
-	for w := range nUpdBy {
-		if fin.Own[w] != nUpdBy[w] && !lost {
-			im.Violate(fmt.Sprintf("writer %d applied %d updates but its own counter is %d (wiped by another writer)", w, nUpdBy[w], fin.Own[w]), "c14-field-wiped", replay)
+	T := uint64(len(updates))
+	if nSaves == 0 && !bad {
+		// without Saves nothing may roll the counters back
+		if fin.Shared != T {
+			violate(fmt.Sprintf("final shared counter %d after %d updates", fin.Shared, T), "c14-lost-update")
+		}
+		for w := range nUpdBy {
+			if fin.Own[w] != nUpdBy[w] {
+				violate(fmt.Sprintf("writer %d applied %d updates but its own counter is %d (wiped by another writer)", w, nUpdBy[w], fin.Own[w]), "c14-field-wiped")
+			}
 		}
 	}
-	// every load = what the first `shared` updates produce
-	order := make([]string, len(upds))
+	// ---- segments: the initial record or a Save, followed by the chain of updates built on it ----
+	type segment struct {
+		start *rec
+		chain []*write
+	}
+	var segs []segment
+	addSeg := func(start *rec, first *write) {
+		sg := segment{start: start}
+		for u := first; u != nil; u = u.next {
+			sg.chain = append(sg.chain, u)
+		}
+		segs = append(segs, sg)
+	}
+	addSeg(&zero, heads[zero.Tag])
+	var saveTags []string
+	for tag, w := range writes {
+		if w.save {
+			saveTags = append(saveTags, tag)
+		}
+	}
+	sort.Strings(saveTags)
+	observedSaves := 0
+	for _, tag := range saveTags {
+		w := writes[tag]
+		if w.next != nil {
+			observedSaves++
+			addSeg(&w.post, w.next)
+		} else if tag == fin.Tag {
+			addSeg(&w.post, nil)
+		}
+	}
+	covered := 0
 	alternations := 0
-	for i, u := range upds {
-		order[i] = CoqNat(u.w)
-		if i > 0 && upds[i-1].proc != u.proc {
-			alternations++
-		}
-	}
-	distinctPrefixes := map[uint64]bool{}
-	var coqLoads []string
-	for _, l := range loads {
-		cnt := make([]uint64, rd.NW)
-		if l.Shared <= T {
-			for _, u := range upds[:l.Shared] {
-				cnt[u.w]++
+	distinctPrefixes := map[string]bool{}
+	for si, sg := range segs {
+		covered += len(sg.chain)
+		order := make([]string, len(sg.chain))
+		inSeg := map[string]bool{sg.start.Tag: true}
+		for i, u := range sg.chain {
+			order[i] = CoqNat(u.w)
+			inSeg[u.tag] = true
+			if i > 0 && sg.chain[i-1].proc != u.proc {
+				alternations++
 			}
 		}
-		same := l.Shared <= T
-		for w := range cnt {
-			if cnt[w] != l.Own[w] {
-				same = false
+		last := sg.start
+		if len(sg.chain) > 0 {
+			last = &sg.chain[len(sg.chain)-1].post
+		}
+		var coqLoads []string
+		for _, l := range loads {
+			if l.r.Whole && inSeg[l.r.Tag] && len(coqLoads) < 400 {
+				coqLoads = append(coqLoads, coqRec(l.r))
+				if l.r.Tag != sg.start.Tag && l.r.Tag != last.Tag {
+					distinctPrefixes[l.r.Tag] = true
+				}
 			}
 		}
-		if !same && !lost {
-			im.Violate(fmt.Sprintf("a Load returned shared=%d own=%v, which no prefix of the applied updates produces (expected own=%v)", l.Shared, l.Own, cnt), "c14-load-not-a-prefix", replay)
+		start := coqOptRec(sg.start)
+		if sg.start.Tag == "" {
+			start = "None"
 		}
-		if l.Shared > 0 && l.Shared < T {
-			distinctPrefixes[l.Shared] = true
+		if len(sg.chain) == 0 && len(coqLoads) == 0 {
+			continue
 		}
-		coqLoads = append(coqLoads, coqRec(l))
+		cf.Add(fmt.Sprintf("CStress %s %s %s %s %s", CoqNat(rd.NW), start, CoqList(order), coqRec(last), CoqList(coqLoads)),
+			fmt.Sprintf("stress round %d segment %d: starts from tag %q (shared=%d), %d updates, %d records seen", idx, si, sg.start.Tag, sg.start.Shared, len(sg.chain), len(coqLoads)))
 	}
-	if len(coqLoads) > 400 { // keep the literal small; the Go oracle above has checked them all
-		coqLoads = coqLoads[:400]
+	if covered != len(updates) && !bad {
+		violate(fmt.Sprintf("%d of %d updates do not continue the initial record, a Save or another update", len(updates)-covered, len(updates)), "c14-lost-update")
 	}
-	nontrivial := alternations >= len(upds)/10 && len(distinctPrefixes) >= 3 && len(rd.Specs) >= 2
-	label := fmt.Sprintf("stress round %d: %d processes, %d writers, %d updates, %d loads, %d cross-process alternations", idx, len(rd.Specs), rd.NW, T, len(loads), alternations)
-	cf.Add(fmt.Sprintf("CStress %s %s %s %s %s", CoqNat(rd.NW), rd.coqFile0(), CoqList(order), coqRec(fin), CoqList(coqLoads)), label)
+	nontrivial := alternations >= len(updates)/10 && len(distinctPrefixes) >= 3 && len(rd.Specs) >= 2 && !bad
+	label := fmt.Sprintf("stress round %d: %d processes, %d writers, %d updates, %d saves (%d built upon), %d records seen, %d cross-process alternations", idx, len(rd.Specs), rd.NW, T, nSaves, observedSaves, len(loads), alternations)
 	im.Count(label, nontrivial)
 	im.Hist(fmt.Sprintf("stress:processes=%d", len(rd.Specs)))
 	im.Hist(fmt.Sprintf("stress:precreated=%v", rd.Precre))
+	if nSaves > 0 {
+		im.Hist("stress:with-saves")
+	}
 	if nontrivial {
 		im.Hist("stress:contended")
 	} else {
@@ -540,11 +684,12 @@ func runStress(c *Ctx, im *Impl, cf *CaseFile, rd *round, idx int) {
 	}
 	c14Totals.updates += int(T)
 	c14Totals.loads += len(loads)
+	c14Totals.saves += nSaves
 	c14Totals.alternations += alternations
-	im.Sample(map[string]interface{}{"kind": "stress", "round": rd.progs(), "updates": T, "loads": len(loads), "final": fin, "cross_process_alternations": alternations})
+	im.Sample(map[string]interface{}{"kind": "stress", "round": rd.progs(), "updates": T, "saves": nSaves, "records_seen": len(loads), "final": fin, "cross_process_alternations": alternations})
 }
 
-var c14Totals struct{ updates, loads, alternations, traceEvents, blockedLocks int }
+var c14Totals struct{ updates, loads, saves, alternations, traceEvents, blockedLocks int }
 
 // ---------- (a) strace ----------
 
@@ -581,6 +726,9 @@ func classify(text, dir string) (kind, ret string) {
 		case strings.Contains(rest, `"`+statP+`"`):
 			if strings.HasPrefix(ret, "-1") {
 				return "open-fail", ret
+			}
+			if strings.Contains(rest, "O_TRUNC") {
+				return "open-trunc", ret
 			}
 			if strings.Contains(rest, "O_RDWR") {
 				return "open-rw", ret
@@ -717,6 +865,13 @@ func opGrammar(kind byte, evs []tev) (labels []string, bad int, consumed int) {
 	if !must("lockopen", "") || !must("lock", "SLock") || !must("locktrunc", "") {
 		return labels, i, i
 	}
+	if kind == 'S' {
+		if !must("open-trunc", "SOpenTrunc") || !must("write", "SWrite") || !must("close-status", "") ||
+			!must("unlock", "SUnlock") || !must("close-lock", "") {
+			return labels, i, i
+		}
+		return labels, -1, i
+	}
 	if kind == 'U' {
 		if !must("open-rw", "SOpen") || !must("seek-end", "SRead") {
 			return labels, i, i
@@ -839,8 +994,11 @@ func runTrace(c *Ctx, im *Impl, cf *CaseFile, rd *round, idx int) {
 	readIdx := map[int]int{}
 	var reads []string
 	addRead := func(g *gor) {
+		// the k-th Read step of this goroutine belongs to its k-th operation that reads (U or L)
 		k := readIdx[g.q]
-		// the k-th Read step of this goroutine belongs to its k-th operation
+		for k < len(g.ops) && g.ops[k] == 'S' {
+			k++
+		}
 		readIdx[g.q] = k + 1
 		var seen *rec
 		if k < len(g.res) {
@@ -894,9 +1052,12 @@ func runTrace(c *Ctx, im *Impl, cf *CaseFile, rd *round, idx int) {
 	for _, g := range gors {
 		ks := make([]string, len(g.ops))
 		for i := range g.ops {
-			if g.ops[i] == 'U' {
+			switch g.ops[i] {
+			case 'U':
 				ks[i] = "KIncr"
-			} else {
+			case 'S':
+				ks[i] = "KSave"
+			default:
 				ks[i] = "KLoad"
 			}
 		}
@@ -919,8 +1080,8 @@ func runTrace(c *Ctx, im *Impl, cf *CaseFile, rd *round, idx int) {
 
 func runC14(c *Ctx) {
 	im := NewImpl("C14", c.Seed, c.Tier)
-	im.Rule = "trace rounds: 1-3 OS processes x 1-3 thread-locked goroutines run random programs of 2-6 UpdateFullStatus/Load calls under one strace; non-trivial = at least 2 processes and at least one flock call had to wait. stress rounds: 2-4 processes x 2-4 goroutines x 10-60 operations (about 30% Loads, some goroutines 90%); non-trivial = lock ownership alternates between OS processes in at least 10% of consecutive updates and Loads observed at least 3 distinct intermediate values of the shared counter. Half of the goroutines keep one StatusFileData for their whole program, 60% of the rounds start from an existing record, the others from no file."
-	cf := &CaseFile{Dir: c.Out, Prop: "C14", Imports: []string{"Model.Lock"}, CaseType: "lock_case", CheckFn: "lock_check", PerShard: 12}
+	im.Rule = "trace rounds: 1-3 OS processes x 1-3 thread-locked goroutines run random programs of 2-6 UpdateFullStatus/Load/Save calls (two thirds of the rounds with Saves) under one strace; non-trivial = at least 2 processes and at least one flock call had to wait. stress rounds: 2-4 processes x 2-4 goroutines x 10-60 operations (about 30% Loads, some goroutines 90%; in half of the rounds 60% of the goroutines also Save what they last read or wrote, 10-20% of their operations); non-trivial = lock ownership alternates between OS processes in at least 10% of consecutive updates and Loads observed at least 3 distinct intermediate values of the shared counter. Half of the goroutines keep one StatusFileData for their whole program, 60% of the rounds start from an existing record, the others from no file."
+	cf := &CaseFile{Dir: c.Out, Prop: "C14", Imports: []string{"Model.Lock"}, CaseType: "lock_case", CheckFn: "lock_check", PerShard: 40}
 	tmp, err := os.MkdirTemp("", "c14-")
 	Must(err)
 	if os.Getenv("C14_KEEP") == "" {
@@ -943,17 +1104,23 @@ func runC14(c *Ctx) {
 		rd.File = filepath.Join(rd.Dir, "status")
 		rd.Specs = []hSpec{{File: rd.File, NW: 2, LockThread: true, Marker: true, Gs: []gSpec{{W: 0, Ops: "LUL", Persist: true}, {W: 1, Ops: "LUU"}}}}
 		runTrace(c, im, cf, rd, 1)
+		// Save among updates and loads: the saver rewrites what it last read, over a newer record
+		rd = &round{Dir: filepath.Join(tmp, "t-save"), NW: 2, Precre: true}
+		rd.File = filepath.Join(rd.Dir, "status")
+		rd.Specs = []hSpec{{File: rd.File, NW: 2, LockThread: true, Marker: true, Gs: []gSpec{{W: 0, Ops: "LUSL", Persist: true}}},
+			{File: rd.File, NW: 2, LockThread: true, Marker: true, Gs: []gSpec{{W: 1, Ops: "ULSU", Persist: true}}}}
+		runTrace(c, im, cf, rd, 1)
 	}
 	for i := 2; i < nTrace; i++ {
-		rd := genRound(r, filepath.Join(tmp, fmt.Sprintf("t%d", i)), r.Range(2, 3), r.Range(1, 3), 6, 35, true, true)
+		rd := genRound(r, filepath.Join(tmp, fmt.Sprintf("t%d", i)), r.Range(2, 3), r.Range(1, 3), 6, 35, []int{0, 25, 35}[r.Intn(3)], true, true)
 		runTrace(c, im, cf, rd, i)
 	}
 	for i := 0; i < nStress; i++ {
-		rd := genRound(r, filepath.Join(tmp, fmt.Sprintf("s%d", i)), r.Range(2, 4), r.Range(2, 4), r.Range(10, maxOps), 30, r.Chance(30), false)
+		rd := genRound(r, filepath.Join(tmp, fmt.Sprintf("s%d", i)), r.Range(2, 4), r.Range(2, 4), r.Range(10, maxOps), 30, []int{0, 0, 10, 20}[r.Intn(4)], r.Chance(30), false)
 		runStress(c, im, cf, rd, i)
 		_ = os.RemoveAll(rd.Dir)
 	}
-	im.Extra["totals"] = map[string]int{"stress_updates": c14Totals.updates, "stress_loads": c14Totals.loads,
+	im.Extra["totals"] = map[string]int{"stress_updates": c14Totals.updates, "stress_loads": c14Totals.loads, "stress_saves": c14Totals.saves,
 		"cross_process_lock_alternations": c14Totals.alternations, "trace_syscalls_projected": c14Totals.traceEvents, "trace_blocked_flock_calls": c14Totals.blockedLocks}
 	Must(cf.Write())
 	Must(im.Write(c.Out))
